@@ -44,6 +44,7 @@ type Solver struct {
 	intReady bool
 	intProc  *Solver
 	flagMemo map[*Term]int
+	BoundsOf func(*Term) ([2]int64, bool)
 }
 
 func solverArgv(kind string) []string {
@@ -160,13 +161,11 @@ func (s *Solver) declare(t *Term, sb *strings.Builder) {
 	collectVars(t, seen, &vars, &ufs)
 	for _, v := range vars {
 		srt := v.S.SMT()
-		if d, ok := s.declared[v.Name]; ok {
-			if d != srt {
-				panic("variable " + v.Name + " redeclared with another sort")
-			}
+		key := v.Name + sortTag(v.S)
+		if _, ok := s.declared[key]; ok {
 			continue
 		}
-		s.declared[v.Name] = srt
+		s.declared[key] = srt
 		fmt.Fprintf(sb, "(declare-const %s %s)\n", smtName(v), srt)
 	}
 	for _, u := range ufs {
@@ -301,7 +300,7 @@ func (s *Solver) checkBV(pc []*Term, q *Term, wantModel bool, vars []*Term) (str
 		gb.WriteString("(get-value (")
 		n := 0
 		for _, v := range vars {
-			if _, ok := s.declared[v.Name]; ok {
+			if _, ok := s.declared[v.Name+sortTag(v.S)]; ok {
 				gb.WriteString(smtName(v))
 				gb.WriteByte(' ')
 				n++
@@ -405,7 +404,7 @@ func parseModel(out string) map[string]uint64 {
 		if p == nil || len(p.list) != 2 {
 			continue
 		}
-		name := p.list[0].atom
+		name := stripSortTag(p.list[0].atom)
 		v := p.list[1]
 		if v.atom != "" {
 			switch v.atom {
